@@ -878,7 +878,8 @@ func ruleEscapes(p *Program, r *Reporter) {
 			return true
 		}
 		iff, ok := n.(*ast.IfStmt)
-		if !ok || iff.Init != nil || iff.Else != nil || len(iff.Body.List) != 1 {
+		// (an else-if chain is a sequence of such tests: each link is visited)
+		if !ok || iff.Init != nil || len(iff.Body.List) != 1 {
 			return true
 		}
 		be, ok := ast.Unparen(iff.Cond).(*ast.BinaryExpr)
